@@ -70,28 +70,25 @@ deriving Repr, DecidableEq, Inhabited
 /-- the file image -/
 def St.bytes (s : St) : List Byte := s.hdr ++ (s.pkts.reverse.flatten ++ s.pending)
 
-/-- sds_write_header's header bytes from the current state -/
-def hdrOf (c : Cfg) (s : St) : List Byte := header c.bitwidth c.sr s.total
-
 /-- sf_open (SFM_WRITE): sds_open sets psf->sf.frames = 0 whatever the caller passed, writes the header and seeks to 21 -/
 def openW (c : Cfg) (_callerFrames : Nat) : St :=
-  let s : St := { buf := List.replicate c.spb 0, frames := 0 }
-  { s with hdr := hdrOf c s }
+  { buf := List.replicate c.spb 0, frames := 0, hdr := header c.bitwidth c.sr 0 }
 
 /-- `psds->writer`: the whole of write_samples goes out as packet number write_block -/
 def flush (c : Cfg) (s : St) : St :=
   { s with pkts := (encBlock c.w s.wblock s.buf).2 :: s.pkts, wblock := s.wblock + 1, wcount := 0, pending := [] }
 
-/-- one sample through sds_write -/
+/-- one sample through sds_write: into the staging buffer, and the packet out when the buffer is full -/
 def push (c : Cfg) (s : St) (x : Int) : St :=
-  let s := { s with buf := s.buf.set s.wcount x, wcount := s.wcount + 1 }
-  if s.wcount ≥ c.spb then flush c s else s
+  if s.wcount + 1 ≥ c.spb then flush c { s with buf := s.buf.set s.wcount x }
+  else { s with buf := s.buf.set s.wcount x, wcount := s.wcount + 1 }
 
-/-- sds_write_header (psf, calc_length) -/
+/-- sds_write_header (psf, calc_length): psf->sf.frames, the partly filled packet (written, then sought back over),
+    the header -/
 def emit (c : Cfg) (s : St) (calcLen : Bool) : St :=
-  let s := if calcLen then { s with frames := s.total } else s
-  let s := if s.wcount > 0 then { s with pending := (encBlock c.w s.wblock s.buf).2 } else s
-  { s with hdr := hdrOf c s }
+  { s with frames := if calcLen then s.total else s.frames,
+           pending := if s.wcount > 0 then (encBlock c.w s.wblock s.buf).2 else s.pending,
+           hdr := header c.bitwidth c.sr s.total }
 
 /-- one sf_write_int call of `xs` (ints as sds_write receives them); `first` = the have_written latch is still open -/
 def write (c : Cfg) (s : St) (xs : List Int) (auto : Bool) (first : Bool) : St :=
